@@ -8,6 +8,32 @@ COMMON_NOTE = ('Trusted base: CPython ast; the hand-built CFG / reaching-definit
                'JAX and numpy semantics listed as assumptions in the evidence file. User-supplied callables are opaque.')
 
 CLAIMS = {
+ 'C01': dict(
+   text='Static analysis (level "other"): decides, on every path of federated_averaging.apply and its training triple, the '
+        'structural necessary conditions of the FedAvg definition: the server optimizer receives tree_inverse_weight(S, W) of '
+        'zero-initialised accumulators updated together with one and the same weight w = len(dataset) of the yielded client; '
+        'the zero guard; optimizer/gradient/key roles in init/step/final; delta = server - trained; ServerState built in field '
+        'order; exactly one diagnostics entry per yielded client; linear key use; purity. Numerical equality, order and backend '
+        'independence up to rounding are not decided.',
+   design='DESIGN.md section 4 C01; rules R-WMEAN, R-DIV, R-SIB, R-YIELD1, R-KEY, R-PURE',
+   technique='accumulator-idiom recognition over reaching definitions + CFG must-pass-through + record-field role recovery'),
+ 'C07': dict(
+   text='Static analysis (level "other"): ownership/liveness analysis of every donated buffer in tree_util (owned copy before '
+        'first donation, dead after donation, public functions donate nothing, private wrappers stay private), recognition of '
+        'the one-pass paired weighted-sum shape of tree_sum/tree_mean/mean_aggregator, zero guards on both inverse-weight helpers, '
+        'a single common clip scalar min(1, bound/global norm), one-pass consumption of iterables, and no write through parameters. '
+        'Hull containment, order independence and the numeric norm bound are not decided.',
+   design='DESIGN.md section 4 C07; rules R-DONATE, R-WMEAN, R-DIV, R-ONEPASS, R-PURE, R-CLIP',
+   technique='buffer-ownership (donation) dataflow + guard/denominator classification + accumulator-shape recognition'),
+ 'C12': dict(
+   text='Static analysis (level "other"): Engler-style sibling cross-check of the seven built-in algorithms against the FedAvg '
+        'row: per trainer the recovered roles (start point, optimizer state threading, gradient evaluation point, delta direction, '
+        'key threading), per round the paired weighted-mean idiom at all 9 inverse-weight sites and the server update; plus the '
+        'algorithm-specific necessary conditions for the stated reductions (FedProx penalty is a product with mu added before the '
+        'mean and differentiated w.r.t. the trained params; Mime server step and optimizer-state advance at the round\'s params; '
+        'HypCluster index pairing / empty-cluster arm / argmin; APFL global branch isolation). The numerical equalities are not decided.',
+   design='DESIGN.md section 4 C12; rules R-SIB, R-WMEAN, R-PROX, R-MIME, R-HYP, R-KEY',
+   technique='sibling-implementation cross-checking via record-field role recovery and accumulator-idiom recognition'),
  'C09': dict(
    text='Static analysis (level "other"): decides the structural necessary conditions of crash-safe resumption on every '
         'path of the code: checkpoints are published only by rename of a complete temp file that the loader pattern '
